@@ -153,8 +153,29 @@ def pairs(tier):
     return P
 
 
+def prelude_pairs(tier):
+    """spelling pairs after a prelude line that introduced spelling A's operand text (first use in the process, by another
+    instruction): the candidate set of a line must not depend on which instruction met the operand's spelling first"""
+    from vf.checks import c12d
+    P = []
+    for optext, seconds in c12d.HIST_OPS.items():
+        if ' PTR ' in optext:
+            kw, rest = optext.split(' PTR ')
+            other = '%s ptr %s' % (kw.lower(), rest)
+        else:
+            other = optext.replace('[ebx+esi*2+', '[esi*2+ebx+')
+        for second in seconds[:2]:
+            for first in c12d.HIST_FIRST:
+                if first == second:
+                    continue
+                P.append(('after-' + first.split()[0], second.replace('{O}', optext).replace('{N}', '{0}'), False,
+                          second.replace('{O}', other).replace('{N}', '{0}'), False, None, first.replace('{O}', optext).replace('{N}', '{0}')))
+    return P
+
+
 def check_pair(p, res, tier):
-    tag, ta, atta, tb, attb, rel = p
+    tag, ta, atta, tb, attb, rel = p[:6]
+    prelude = p[6] if len(p) > 6 else None
     title = '%r  ~  %r' % (ta, tb)
     eng = Engine(width=72, timeout_ms=20000, max_paths=4000, max_seconds=180)
 
@@ -183,9 +204,19 @@ def check_pair(p, res, tier):
             n1 = SInt.var('n1', 0, (1 << 32) - 1)
             syms = [n0, n1]
         outs = []
+        ph = {}
+        if prelude is not None:
+            # numerals never printed before in this process: both operand texts are new to any cache keyed by text
+            ph = {ta: AD.fresh_placeholders(len(syms)), tb: AD.fresh_placeholders(len(syms))}
+            try:
+                AD.asm(prelude, syms, ph=ph[ta])
+            except PathAbort:
+                raise
+            except Exception:
+                pass
         for tmpl, att in ((ta, atta), (tb, attb)):
             try:
-                c = AD.asm(tmpl, syms, att=att)
+                c = AD.asm(tmpl, syms, att=att, ph=ph.get(tmpl))
                 outs.append(('ok', [AD.as_sbytes(x) for x in c] if isinstance(c, list) and not (c and isinstance(c[0], list)) else []))
             except PathAbort:
                 raise
@@ -245,7 +276,7 @@ def check_pair(p, res, tier):
                 continue
             seen.add(key)
             res['candidates'].append({'key': key, 'desc': '%s: %s with %s' % (title, r[2], r[3]),
-                                      'data': {'a': ta, 'atta': atta, 'b': tb, 'attb': attb, 'vals': [r[3].get('n0', 0), r[3].get('n1', 0)]}})
+                                      'data': {'a': ta, 'atta': atta, 'b': tb, 'attb': attb, 'prelude': prelude, 'vals': [r[3].get('n0', 0), r[3].get('n1', 0)]}})
         elif r[0] == 'SKIP':
             pass
         else:
@@ -258,7 +289,8 @@ def check_pair(p, res, tier):
 
 def jobs(tier, seed):
     ps = pairs(tier)
-    return [('pairs', tier, ps[i:i + 4]) for i in range(0, len(ps), 4)]
+    pp = prelude_pairs(tier)
+    return [('pairs', tier, ps[i:i + 4]) for i in range(0, len(ps), 4)] + [('pairs', tier, pp[i:i + 30]) for i in range(0, len(pp), 30)]
 
 
 def run_job(job):
@@ -285,6 +317,7 @@ def run(t, att):
         return line, 'rejected'
     except Exception as ex:
         return line, 'raises ' + type(ex).__name__
+if D.get('prelude'): print('prelude:', run(D['prelude'], False))
 la, ra = run(D['a'], D['atta']); lb, rb = run(D['b'], D['attb'])
 print(repr(la), '->', ra); print(repr(lb), '->', rb)
 bad = ra != rb and not (str(ra).startswith('raises') or str(rb).startswith('raises'))
@@ -310,7 +343,8 @@ def main(argv=None):
     cov['rule'] = 'a program = one pair of spellings of a line with shared symbolic numbers; non-trivial = at least one joint path proved'
     cov['functions_encoded'] = ['core.parse_ad + arch.ia32_att grammars (real PLY lexers/parsers on real text)', 'ia32_arch:parse_mnemo/parse_asm_x86/mnemo_from_att/arg_set_numpy_imm/normalize_args/asm_candidates/asm_all_candidate']
     cov['bounds'] = ('%d spelling pairs over %s; numbers symbolic in [0,2^32) (wrap clause: second number in [0,2^35) congruent mod 2^32); '
-                     'decimal-vs-hexadecimal spelling not covered' % (len(pairs(a.tier)), 'mov/add/cmp/lea (+xor/test/sub/and thorough), push, x87, movzx, shl, jmp'))
+                     '%d pairs (keyword case / term order) checked after a prelude line in which another instruction introduced spelling A\'s operand text (fresh numerals: first use in the process); '
+                     'decimal-vs-hexadecimal spelling not covered' % (len(pairs(a.tier)), 'mov/add/cmp/lea (+xor/test/sub/and thorough), push, x87, movzx, shl, jmp', len(prelude_pairs(a.tier))))
     if cov['proved'] == 0:
         herr.append('vacuous: nothing proved')
     assumptions = ['numbers substituted right after lexing', 'z3 5.1.0', 'proxies']
